@@ -451,3 +451,48 @@ func Config(r Rand, executor string) world.Config {
 	c.SortCanary = r.Pick(0, 0, 1, 2, 5)
 	return c
 }
+
+// SmallSpecs enumerates all programs made of one source followed by up to
+// maxOps operators (each applied to the previous node) for the given key
+// types, row counts and shard counts: the bounded-exhaustive smoke set.
+func SmallSpecs(keyTypes []string, ns, shards []int, maxOps int) []*spec.Spec {
+	var out []*spec.Spec
+	for _, kt := range keyTypes {
+		for _, n := range ns {
+			for _, sh := range shards {
+				for _, srcOp := range []string{"const", "readerfunc"} {
+					b := &builder{r: New(1), o: SpecOpts{NoPragmas: true, Tag: "s"}}
+					src := spec.Node{Op: srcOp, KT: kt, N: n, Shards: sh, Card: 5, DSeed: 2}
+					if srcOp == "readerfunc" {
+						src.Chunks = []int{3, 0, 200}
+						src.EOFData = n%2 == 1
+					}
+					b.add(src)
+					var rec func(b *builder, depth int)
+					rec = func(b *builder, depth int) {
+						out = append(out, Prune(&spec.Spec{Nodes: append([]spec.Node(nil), b.nodes...), Tag: "s"}, len(b.nodes)-1))
+						if depth == maxOps {
+							return
+						}
+						cur := len(b.nodes) - 1
+						seen := map[string]bool{}
+						for _, op := range b.applicable(cur) {
+							if seen[op] || op == "cogroup" {
+								continue
+							}
+							seen[op] = true
+							c := &builder{r: New(uint64(len(out))), o: b.o,
+								nodes: append([]spec.Node(nil), b.nodes...), types: append([]spec.Type(nil), b.types...),
+								weak: append([]bool(nil), b.weak...), known: append([]bool(nil), b.known...), ord: append([]bool(nil), b.ord...)}
+							if _, ok := c.apply(cur, op); ok {
+								rec(c, depth+1)
+							}
+						}
+					}
+					rec(b, 0)
+				}
+			}
+		}
+	}
+	return out
+}
